@@ -1569,7 +1569,8 @@ where
     #[inline(always)]
     pub fn skip_one(&mut self) -> Result<(&'de [u8], ParseStatus)> {
         let ch = self.skip_space();
-        let start = self.read.index() - 1;
+        // `ch` is none for the empty input, and the index is still zero
+        let start = self.read.index().saturating_sub(1);
         let mut status = ParseStatus::None;
         match ch {
             Some(c @ b'-' | c @ b'0'..=b'9') => {
@@ -1595,7 +1596,8 @@ where
     #[inline(always)]
     pub fn skip_one_unchecked(&mut self) -> Result<(&'de [u8], ParseStatus)> {
         let ch = self.skip_space();
-        let start = self.read.index() - 1;
+        // `ch` is none for the empty input, and the index is still zero
+        let start = self.read.index().saturating_sub(1);
         let mut status = ParseStatus::None;
         match ch {
             Some(b'-' | b'0'..=b'9') => self.skip_number_unsafe(),
